@@ -505,12 +505,44 @@ def pool_oracle(kind, lines, out, flags):
 # --------------------------------------------------------------------------
 # T2 runs
 # --------------------------------------------------------------------------
-def compare(model_args, exe_cmd, lines, timeout=60):
+def run_impl(cmd, lines, timeout):
+    """run the real code on a program; on a hang keep the output produced so far.  -> (rc, out_lines, stderr)"""
+    import subprocess
+    data = ("\n".join(lines) + "\n").encode()
+    e = dict(os.environ)
+    e.setdefault("ASAN_OPTIONS", "detect_leaks=0:abort_on_error=0")
+    e.setdefault("UBSAN_OPTIONS", "print_stacktrace=1")
+    for attempt in (0, 1):
+        try:
+            p = subprocess.Popen(cmd, stdin=subprocess.PIPE, stdout=subprocess.PIPE, stderr=subprocess.PIPE, env=e)
+            break
+        except FileNotFoundError:
+            # the shared build cache was pruned by a concurrent check of another tree: rebuild once
+            if attempt == 1:
+                raise
+            name = os.path.basename(cmd[0])
+            C._hash_cache = None
+            C.cc_harness(name, [name + ".c"], "san")
+    try:
+        so, se = p.communicate(data, timeout=timeout)
+        rc = p.returncode
+    except subprocess.TimeoutExpired:
+        p.kill()
+        so, se = p.communicate()
+        rc = -999
+    return rc, so.decode("utf-8", "replace").split("\n"), se.decode("utf-8", "replace")
+
+
+def compare(model_args, exe_cmd, lines, timeout=30):
     """like D.compare but the model takes extra arguments; a hang of the real code is a result (rc -999)"""
-    rc_c, out_c, err_c = D.run_lines(exe_cmd, lines, timeout=timeout)
+    rc_c, out_c, err_c = run_impl(exe_cmd, lines, timeout)
     rc_m, out_m, err_m = D.run_lines([C.driver_exe()] + model_args, lines, timeout=600)
     if rc_m != 0:
         return {"kind": "model-driver-failed", "rc": rc_m, "stderr": err_m[-2000:]}
+    if rc_c == -999:
+        done = len([o for o in out_c if o])
+        return {"kind": "impl-hang", "timeout_s": timeout, "output_lines_before_hang": done,
+                "hung_in": lines[done] if done < len(lines) else "<after the last operation (teardown)>"}
     if rc_c != 0:
         return {"kind": "impl-crash", "rc": rc_c, "stderr": err_c[-3000:], "impl_out_tail": out_c[-5:]}
     dd = D.first_diff(out_c, out_m)
@@ -519,12 +551,27 @@ def compare(model_args, exe_cmd, lines, timeout=60):
     return {"kind": "output-differs", "line": dd[0], "impl": dd[1], "model": dd[2]}
 
 
-def classify(res, name, model_args, exe_cmd, lines, keep, oracle, d):
-    small = D.ddmin(lines, lambda ls: compare(model_args, exe_cmd, ls, timeout=10) is not None, keep_prefix=keep, budget=120)
-    d2 = compare(model_args, exe_cmd, small, timeout=10) or d
-    rc, out_c, err = D.run_lines(exe_cmd, small, timeout=10)
+def classify(res, name, model_args, exe_cmd, lines, keep, oracle, d, tier="quick"):
+    import time
+    deadline = time.time() + (90 if tier == "quick" else 900)
+    tmo = 5 if d.get("kind") == "impl-hang" else 15
+
+    def still_fails(ls):
+        if time.time() > deadline:
+            return False
+        return compare(model_args, exe_cmd, ls, timeout=tmo) is not None
+    small = D.ddmin(lines, still_fails, keep_prefix=keep, budget=150)
+    d2 = compare(model_args, exe_cmd, small, timeout=tmo) or d
+    rc, out_c, err = run_impl(exe_cmd, small, tmo)
     if rc == -999:
-        why = "implementation did not return within 10 s (hang) on a %d-line program" % len(small)
+        done = len([o for o in out_c if o])
+        if done < len(small):
+            why = "operation `%s` (line %d) did not return within %d s" % (small[done], done, tmo)
+        else:
+            why = oracle(small, out_c)
+            if not why:
+                why = None
+                d2 = dict(d2, note="all operations answered like a queue; the process then hung in teardown (ABT_finalize)")
     elif rc != 0:
         why = "implementation aborted (sanitizer/assert): " + err[-800:]
     else:
@@ -535,6 +582,34 @@ def classify(res, name, model_args, exe_cmd, lines, keep, oracle, d):
         res.violation("%s: the real code does not behave as one atomic queue: %s" % (name, why), rep)
     else:
         res.violation("%s: correspondence broken (implementation still queue-like on this input)" % name, rep, no_input=True)
+
+
+def monitor(res, name, model_args, exe_cmd, lines, keep, oracle, tier):
+    """model and code agree on this program; does the code's own output contradict the property statement anyway?
+    (possible when model and code were changed together, or when the generated table — which the model follows —
+    no longer has the documented ends).  Returns True when a violation was reported."""
+    import time
+    rc, out_c, err = run_impl(exe_cmd, lines, 30)
+    if rc != 0:
+        return False
+    why = oracle(lines, out_c)
+    if not why:
+        return False
+    deadline = time.time() + (60 if tier == "quick" else 600)
+
+    def still_fails(ls):
+        if time.time() > deadline:
+            return False
+        r, o, _ = run_impl(exe_cmd, ls, 10)
+        return r == 0 and oracle(ls, o) is not None
+    small = D.ddmin(lines, still_fails, keep_prefix=keep, budget=150)
+    rc, out_c, err = run_impl(exe_cmd, small, 10)
+    why2 = oracle(small, out_c) if rc == 0 else None
+    res.violation("%s: the real code does not behave as the documented queue: %s" % (name, why2 or why),
+                  {"correspondence": name + " (independent oracle; model and code agree)", "model_args": model_args,
+                   "exe_args": exe_cmd[1:], "harness": os.path.basename(exe_cmd[0]), "ops": small if why2 else lines,
+                   "impl_output": (out_c if why2 else [])[:200], "oracle": why2 or why})
+    return True
 
 
 def t2_tq(res, tier, broken):
@@ -553,8 +628,10 @@ def t2_tq(res, tier, broken):
             res.sample({"tq_ops": lines[8:22]})
         d = compare(["tq"], [exe], lines)
         if d is None:
+            if monitor(res, "T2 thread_queue", ["tq"], [exe], lines, 2 * NQ, tq_oracle, tier):
+                break
             continue
-        classify(res, "T2 thread_queue (harness/wb_tq.c vs Model.TQ)", ["tq"], [exe], lines, 2 * NQ, tq_oracle, d)
+        classify(res, "T2 thread_queue (harness/wb_tq.c vs Model.TQ)", ["tq"], [exe], lines, 2 * NQ, tq_oracle, d, tier)
         break
     res.add_cov(tq_programs=rounds, tq_lines=nl, tq_op_histogram=dict(hist),
                 tq_final_size_distribution={str(k): v for k, v in sorted(sizes.items())})
@@ -571,10 +648,11 @@ def probe_priv_pop_wait(res, exe):
     for kind in KINDS:
         for op in ("pop_wait 0", "pop_timedwait"):
             ops = ["sel 0", "push 1 0", op]
-            rc, out, err = D.run_lines([exe, kind], ops, timeout=5)
-            if rc == -999:
+            rc, out, err = run_impl([exe, kind], ops, 5)
+            answered = len(out) >= 3 and out[2].startswith("pop 1")
+            if rc == -999 and not answered and len([o for o in out if o]) == 2:
                 hung.setdefault(kind, []).append(op)
-            elif rc != 0 or len(out) < 3 or not out[2].startswith("pop 1"):
+            elif not answered or rc not in (0, -999):
                 res.violation("pop on a PRIV %s pool holding one unit: %r" % (kind, out[:3]),
                               {"correspondence": "probe", "model_args": ["pool", kind], "exe_args": [kind], "harness": "wb_poolapi",
                                "ops": ops, "impl_output": out[:3], "stderr": err[-500:]})
@@ -616,9 +694,13 @@ def t2_pool(res, tier, broken):
                 res.sample({"pool_ops_randws": lines[:12]})
             d = compare(["pool", kind], [exe, kind], lines)
             if d is None:
+                if monitor(res, "T2 pool API %s" % kind, ["pool", kind], [exe, kind], lines, 0,
+                           lambda ls, out, k=kind: pool_oracle(k, ls, out, flags), tier):
+                    stop = True
+                    break
                 continue
             classify(res, "T2 pool API %s (harness/wb_poolapi.c vs Model.TQ + Gen.PoolEnds)" % kind, ["pool", kind],
-                      [exe, kind], lines, 0, lambda ls, out, k=kind: pool_oracle(k, ls, out, flags), d)
+                      [exe, kind], lines, 0, lambda ls, out, k=kind: pool_oracle(k, ls, out, flags), d, tier)
             stop = True
             break
         if stop:
@@ -630,6 +712,11 @@ def t2_pool(res, tier, broken):
 
 
 def run(res, tier, broken):
+    if not os.path.exists(C.driver_exe()):
+        # a failed build of the property's theorems can leave the driver unlinked; it does not depend on them
+        ok, out = C.lake_build(["driver"])
+        if not ok:
+            raise RuntimeError("model driver does not build: " + out[-1500:])
     n1 = t2_tq(res, tier, broken)
     n2 = t2_pool(res, tier, broken)
     res.add_cov(programs=res.cov.get("tq_programs", 0) + res.cov.get("pool_programs", 0), disagreements_checked=n1 + n2)
@@ -645,7 +732,7 @@ def replay(res, path):
     exe = C.cc_harness(hname, [hname + ".c"], "san")
     cmd = [exe] + list(rep.get("exe_args", []))
     d = compare(margs, cmd, rep["ops"], timeout=10)
-    rc, out_c, err = D.run_lines(cmd, rep["ops"], timeout=10)
+    rc, out_c, err = run_impl(cmd, rep["ops"], 10)
     print("disagreement:", d)
     if rc == -999:
         print("oracle: implementation did not return within 10 s (hang)")
